@@ -18,8 +18,34 @@ SEED = int(os.environ.get("VERIF_SEED", "1") or "1")
 NCPU = int(os.environ.get("VERIF_JOBS", str(os.cpu_count() or 4)))
 TLA_CP = "/opt/veriftools/tla/tla2tools.jar:/opt/veriftools/tla/CommunityModules-deps.jar"
 
-W2C2_DEFS = ["-DHAS_PTHREAD=1", "-DHAS_UNISTD=1", "-DHAS_GETOPT=1", "-DHAS_LIBGEN=1",
-             "-DHAS_STRDUP=1", "-DHAS_GLOB=1"]
+_FALLBACK_DEFS = {"w2c2/main.c": ["-DHAS_PTHREAD=1", "-DHAS_UNISTD=1", "-DHAS_GETOPT=1", "-DHAS_LIBGEN=1", "-DHAS_STRDUP=1", "-DHAS_GLOB=1"],
+                  "wasi/wasi.c": ["-DHAS_FCNTL=1", "-DHAS_GETENTROPY=1", "-DHAS_LSTAT=1", "-DHAS_STRNDUP=1", "-DHAS_SYSRESOURCE=1", "-DHAS_SYSTIME=1",
+                                  "-DHAS_SYSUIO=1", "-DHAS_TIMESPEC=1", "-DHAS_UNISTD=1", "-DWASM_THREADS_PTHREADS"]}
+_project_defs = None
+
+
+def project_defs(source):
+    """The preprocessor definitions the project's own build (cmake's feature detection on this host) gives `source`
+    ("w2c2/main.c", "wasi/wasi.c"): the checks compile the sources themselves, but with the configuration the tree asks for."""
+    global _project_defs
+    if _project_defs is None:
+        _project_defs = {}
+        d = tempfile.mkdtemp(prefix="cmk-")
+        try:
+            p = subprocess.run(["cmake", "-S", REPO, "-B", d, "-G", "Ninja", "-DCMAKE_EXPORT_COMPILE_COMMANDS=ON"],
+                               stdout=subprocess.PIPE, stderr=subprocess.PIPE, timeout=300)
+            if p.returncode == 0:
+                for e in json.load(open(os.path.join(d, "compile_commands.json"))):
+                    rel = os.path.relpath(e["file"], REPO)
+                    _project_defs.setdefault(rel, [x for x in e["command"].split() if x.startswith("-D")])
+        except (OSError, ValueError, subprocess.TimeoutExpired):
+            pass
+        finally:
+            shutil.rmtree(d, ignore_errors=True)
+    return list(_project_defs.get(source) or _FALLBACK_DEFS[source])
+
+
+W2C2_DEFS = project_defs("w2c2/main.c")
 
 
 class MachineryError(Exception):
